@@ -138,3 +138,22 @@ class Check:
             self.pid, self.tier, self.states, self.transitions, self.traces, self.evaluations,
             len(self.nontrivial), self.controls, wall))
         return 0
+
+
+# ---------------------------------------------------------------------------------------------
+# Documented arguments are passed by position as often as by keyword: `order` is the documented order of the
+# parameters (as the docstrings list them), `given` the values.  Every other call passes the longest leading run
+# of given parameters positionally and the rest by keyword; the calls in between pass everything by keyword.
+_ROT = [0]
+
+
+def api_call(f, order, given, first=(), positional=None):
+    _ROT[0] += 1
+    pos = (_ROT[0] % 2 == 0) if positional is None else positional
+    args, kw = list(first), dict(given)
+    if pos:
+        for name in order:
+            if name not in kw:
+                break
+            args.append(kw.pop(name))
+    return f(*args, **kw)
